@@ -22,25 +22,23 @@ Definition add16 (a b : N) : N := (a + b) mod two16.
 Definition mul16 (a b : N) : N := (a * b) mod two16.
 Definition sub16 (a b : N) : N := (a + two16 - b) mod two16.   (* a, b < 2^16 *)
 
-(* Which of the recorded defects of the current code are repaired.
-     v_validate   restoreLocked validates its argument (address known and not excluded, block aligned and in range,
-                  not owned by another subscriber, limit, paired) and commitRestoredPBA stops on a restore error
-     v_replace    ReverseIndex.Add replaces an existing entry for the same (address, start) instead of appending a
-                  second one to byIP
-     v_dedup      ConfigurePool keeps only the first occurrence of an outside address
-     v_rollback   the failure branch of tryRestoreSyncedMapping's dataplane callback removes the subscriber's reverse
-                  entries before it releases the subscriber's blocks *)
+(* One flag per defect that was found in /repo; true = repaired.  All of them are fixed in /repo now, so [repaired] is
+   what /repo HEAD does; the other settings exist for the historical [_refuted] witnesses only.
+     v_validate   (285c7b2) restoreLocked validates its argument (address known and not excluded, block aligned and in
+                  range, not owned by another subscriber, limit, paired); commitRestoredPBA stops on a restore error
+     v_replace    (7d1d0b3) ReverseIndex.Add replaces an existing entry for the same (address, start)
+     v_dedup      (3b1c45d) ConfigurePool keeps only the first occurrence of an outside address
+     v_rollback   (0cedd79) the failure branch of tryRestoreSyncedMapping removes the subscriber's reverse entries
+                  before it releases the subscriber's blocks *)
 Record variant := { v_validate : bool; v_replace : bool; v_dedup : bool; v_rollback : bool;
                     v_vrfkey : bool; v_xpool : bool; v_late : bool }.
-(*   v_vrfkey     the component keys the pool by (inside VRF, inside address) instead of (0, inside address)
-     v_xpool      cgnat.Config.Validate rejects two pools whose outside addresses overlap
-     v_late       a dataplane add that completes late is reconciled with what happened meanwhile: a release of the
+(*   v_vrfkey     (53e73c2) the component keys the pool by (inside VRF, inside address) instead of (0, inside address)
+     v_xpool      (1fd8c60) cgnat.Config.Validate rejects two pools whose outside addresses overlap
+     v_late       (8d8ac1d) a dataplane add that completes late is reconciled with what happened meanwhile: a release of the
                   session cancels the activation in flight (blocks and reverse entries released), a successful
                   completion commits only if the subscriber still holds the block, a failed one removes the
                   subscriber's reverse entries before releasing
-                  (fixes/C15_late_add_completion.patch).  The exactness theorem is proved for histories without
-                  late completions only; for late completions this variant is tied to the patched code by the
-                  correspondence check alone. *)
+                  (exactness for every completion order: Properties.C15_reverse_lookup_exact). *)
 Definition repaired : variant :=
   {| v_validate := true; v_replace := true; v_dedup := true; v_rollback := true; v_vrfkey := true; v_xpool := true;
      v_late := true |}.
@@ -280,7 +278,7 @@ Definition release (c : cfg) (p : pool) (k : N) : pool :=
 Definition holds_block (bl : list block) (b : block) : bool :=
   existsb (fun x => (b_start x =? b_start b) && (b_ip x =? b_ip b)) bl.
 
-(* restoreLocked as it is today: no validation at all *)
+(* restoreLocked before 285c7b2: no validation at all *)
 Definition restore_defective (c : cfg) (p : pool) (k : N) (b : block) (if_absent : bool) : pool :=
   if if_absent && holds_block (blocks_of p k) b then p
   else
@@ -290,7 +288,7 @@ Definition restore_defective (c : cfg) (p : pool) (k : N) (b : block) (if_absent
                   end in
     add_block p k b addrs'.
 
-(* restoreLocked with validation (fixes/C15_restore_validate.patch).  None = error returned, state unchanged.
+(* restoreLocked with validation (285c7b2).  None = error returned, state unchanged.
    The shape of the block is checked before the idempotent early return of RestoreMappingIfAbsent (which compares
    address and start only): otherwise a record with a wrong end would be reported as restored and then indexed by
    the component.  A plain RestoreMapping of a block the subscriber already holds still appends a second copy (legacy behaviour
@@ -427,7 +425,7 @@ Definition rev_lookup (ri : rindex) (ip port : N) : option mapping :=
 
 (* ---------------------------------------------------------------- component call order (component.go) *)
 (* A subscriber is (inside VRF, inside address), encoded as vrf * 65536 + low 16 bits of the address.  Before the
-   VRF fix the component passes VRF 0 to every pool call it derives from a session. *)
+   VRF fix (53e73c2) the component passed VRF 0 to every pool call it derives from a session. *)
 Definition pk (v : variant) (k : N) : N := if v_vrfkey v then k else k mod 65536.
 
 (* cp_pend: activations whose dataplane add is still in flight: (session, pool key, block) *)
